@@ -97,6 +97,11 @@ func CalculateSaleReturn(supply *big.Int, reserve *big.Int, crr uint32, sellAmou
 
 	result, _ := res.Int(nil)
 
+	// a reserve that does not fit the 100-bit mantissa is rounded; a sale never returns more than the reserve
+	if result.Cmp(reserve) == 1 {
+		result.Set(reserve)
+	}
+
 	return result
 }
 
